@@ -2,14 +2,15 @@
 """usage: tools/keep_seed.py <PID> <name> <needs> <detected-by text>  -- archive a confirmed seeded change under seeded/<name>/"""
 import json, os, shutil, sys
 pid, name, needs, det = sys.argv[1:5]
-src = f"/tmp/seed_{pid}"
+pre = os.environ.get("SEED_PREFIX", "seed")
+src = f"/tmp/{pre}_{pid}"
 dst = os.path.join(os.path.dirname(os.path.dirname(os.path.abspath(__file__))), "seeded", name)
 os.makedirs(dst, exist_ok=True)
-shutil.copy(f"/tmp/seed_{pid}.patch", os.path.join(dst, "patch.diff"))
+shutil.copy(f"/tmp/{pre}_{pid}.patch", os.path.join(dst, "patch.diff"))
 shutil.copy(os.path.join(src, f"demo_{pid}.py"), os.path.join(dst, f"demo_{pid}.py"))
 if os.path.exists(os.path.join(src, "notes.txt")):
     shutil.copy(os.path.join(src, "notes.txt"), os.path.join(dst, "notes.txt"))
-conf = open(f"/tmp/confirm_{pid}.log").read().strip().splitlines()
+conf = open(f"/tmp/confirm_{pre}_{pid}.log" if pre != "seed" else f"/tmp/confirm_{pid}.log").read().strip().splitlines()
 json.dump(dict(property=pid, breaks=pid, origin="independent sub-agent given only the property text and a scratch worktree",
                needs_to_manifest=needs,
                confirmed=dict(commands=[f"tools/confirm_seed.sh {pid}  (demo with change / without change; 87 stable tests with change)"], output=conf),
